@@ -7,9 +7,9 @@ namespace Axelar.Surface
 open Axelar Generated
 
 def itsExpected : List (String × String × Bool × String × Nat) := [
-  ("callback", "deploy_remote_token_callback", false, "", 7),
-  ("callback", "execute_with_token_callback", false, "", 8),
-  ("callback", "register_token_metadata_callback", false, "", 4),
+  ("callback", "deploy_remote_token_callback", false, "", 0),
+  ("callback", "execute_with_token_callback", false, "", 0),
+  ("callback", "register_token_metadata_callback", false, "", 0),
   ("endpoint", "acceptOperatorship", false, "", 1),
   ("endpoint", "approveDeployRemoteInterchainToken", false, "", 4),
   ("endpoint", "callContractWithInterchainToken", false, "*", 5),
